@@ -296,3 +296,16 @@ func pkgRel(p *types.Package) string {
 	}
 	return strings.TrimPrefix(strings.TrimPrefix(p.Path(), modPath), "/")
 }
+
+// SSAFuncInit returns the synthesized package initializer (global variable initialisers).
+func (w *World) SSAFuncInit(rel string) *ssa.Function {
+	p := w.Pkg(rel)
+	if p == nil {
+		return nil
+	}
+	sp := w.Prog.Package(p.Types)
+	if sp == nil {
+		return nil
+	}
+	return sp.Func("init")
+}
